@@ -49,6 +49,40 @@ theorem membership_alone_confers_nothing (pol : Policy) (g : Graph) (src tgt : N
 example : permLevel {} [⟨0, 2, 4, .member, none⟩, ⟨1, 4, 7, .member, none⟩, ⟨2, 2, 7, .member, none⟩] 2 7 = none := by
   decide
 
+/-- only allow-listed edge types count (access.rs `ALLOWED_TRAVERSAL_EDGES` / `is_allowed_edge_type`):
+    (classification) an edge type is skipped by the search exactly when it starts with none of the allow-listed
+    strings, it can contribute a level only when it starts with `VAULT_ACCESS`, and it is traversed only when it is
+    allow-listed without that prefix (i.e. starts with `MEMBER`);
+    (irrelevance) deleting every skipped edge from ANY graph changes neither the level the search returns nor the
+    denied / insufficient decision of `check_path` — so no chain through OWNS / ADMIN_OF / … edges confers anything. -/
+theorem non_allowlisted_edges_are_ignored :
+    (∀ (ty : List Char) (cap : Option Level) (sig : Bool),
+        (kindOfType ty cap sig = .other ↔ isAllowedType ty = false) ∧
+        ((kindOfType ty cap sig).isAccess = true → hasAccessPrefix ty = true) ∧
+        (kindOfType ty cap sig = .member → isAllowedType ty = true ∧ hasAccessPrefix ty = false)) ∧
+    (∀ (pol : Policy) (g : Graph) (src tgt : Nat),
+        permLevel pol (dropOther g) src tgt = permLevel pol g src tgt ∧
+        checkPath (dropOther g) src tgt = checkPath g src tgt) := by
+  refine ⟨fun ty cap sig => ?_, fun pol g src tgt =>
+    ⟨permLevel_congr (fun _ _ => Witness.dropOther_iff), checkPath_dropOther g src tgt⟩⟩
+  unfold kindOfType
+  cases ha : isAllowedType ty <;> cases hv : hasAccessPrefix ty <;> simp [EKind.isAccess]
+
+/-- non-vacuity: the classification of concrete type strings, and a graph where alice reaches an Admin grant
+    only through an `OWNS` edge (nothing) next to the same graph with a `MEMBER_OF` edge (Write at 2 hops) -/
+example : kindOfType "OWNS".toList none true = .other ∧ kindOfType "member".toList none true = .other ∧
+    kindOfType "XMEMBER".toList none true = .other ∧ kindOfType "VAULT_ACCES".toList none true = .other ∧
+    kindOfType "MEMBER_OF".toList none true = .member ∧ kindOfType "MEMBERSHIP_ADMIN".toList none true = .member ∧
+    kindOfType "VAULT_ACCESS_WRITE".toList none true = .access (some .write) none true ∧
+    kindOfType "VAULT_ACCESS".toList none true = .access (some .admin) none true ∧
+    kindOfType "VAULT_ACCESS_FOO".toList none true = .access none none true ∧
+    kindOfType "VAULT_ACCESSX_READ".toList none true = .access (some .read) none true := by decide
+
+example : permLevel {} [⟨0, 2, 4, kindOfType "OWNS".toList none true, none⟩,
+                        ⟨1, 4, 7, .access (some .admin) (some .admin) true, none⟩] 2 7 = none ∧
+          permLevel {} [⟨0, 2, 4, kindOfType "MEMBER_OF".toList none true, none⟩,
+                        ⟨1, 4, 7, .access (some .admin) (some .admin) true, none⟩] 2 7 = some .write := by decide
+
 /-! ## every successful call was authorised by a live grant -/
 
 /-- the (requester, secret, level) checks an operation must pass -/
